@@ -62,6 +62,8 @@ def determinism(n, seed, pids=None):
         ok = a[pid] == b[pid] == c.get(pid)
         print("determinism %s: %s  (%d seeds x {same process twice, fresh interpreter PYTHONHASHSEED=12345})" %
               (pid, "identical" if ok else "DIVERGED", n))
+        if not ok:
+            print("   first pass %s / second pass %s / fresh interpreter %s" % (a[pid][:16], b[pid][:16], str(c.get(pid))[:16]))
         bad += 0 if ok else 1
     return 2 if bad else 0
 
